@@ -1169,6 +1169,17 @@ func ruleUsedMarkingMatchesEmission(c *Ctx, rule string) {
 					c.fail(rule, construct, L.pos(anchor.Pos()), "imports of "+what+" are marked used, but the function prints something else: the import block can name a package the output never mentions", "marked from "+mterm, "expected an emission containing one of "+strings.Join(want, " / "))
 					continue
 				}
+				// already printed on every path that reaches the marking
+				before := false
+				for _, e := range emits {
+					if instrDominates(e, anchor) {
+						before = true
+					}
+				}
+				if before {
+					c.ok(rule, fnName(fn)+": what is marked was printed before the marking on every path ("+what+")", "an emission dominates the marking")
+					continue
+				}
 				// path condition: from the marking, the next iteration / exit is not reachable without an emission
 				emitBlocks := map[*ssa.BasicBlock]bool{}
 				for _, e := range emits {
@@ -1474,8 +1485,16 @@ func ruleOneNodePerProvider(c *Ctx, rule string) {
 	if ng == nil {
 		return
 	}
-	n := 0
-	for _, fn := range withClosures(ng) {
+	type site struct {
+		fn   *ssa.Function
+		at   ssa.Instruction
+		prov ssa.Value // the provider the node is created for
+		node ssa.Value // the created node
+	}
+	var sites []site
+	// constructor helpers: allocate a node, store their parameter as its providerSpec, return it
+	ctors := map[*ssa.Function]int{}
+	for _, fn := range family(L, ng) {
 		for _, st := range storesToField([]*ssa.Function{fn}, "internal/kessoku.node.providerSpec") {
 			fa, ok := st.Addr.(*ssa.FieldAddr)
 			if !ok {
@@ -1485,56 +1504,101 @@ func ruleOneNodePerProvider(c *Ctx, rule string) {
 			if !ok {
 				continue
 			}
-			n++
-			// the root node: created once, outside every loop, and handed to graph.returnValue
-			if fn == ng && outermostLoopHeader(st.Block()) == nil {
-				isRoot := false
-				for _, r := range *al.Referrers() {
-					if s2, ok := r.(*ssa.Store); ok && s2.Val == ssa.Value(al) {
-						if fa2, ok := s2.Addr.(*ssa.FieldAddr); ok && fieldKey(fa2) == "internal/kessoku.returnVal.node" {
-							isRoot = true
-						}
+			if p, isP := st.Val.(*ssa.Parameter); isP && fn.Parent() == nil && fn != ng {
+				returnsIt := false
+				for _, r := range returnsOf(fn) {
+					if len(r.Results) == 1 && resolve(r.Results[0]) == ssa.Value(al) {
+						returnsIt = true
 					}
 				}
-				if isRoot {
-					c.ok(rule, "the root node is created once, outside the walk", L.pos(st.Pos()))
+				if returnsIt {
+					for i, q := range fn.Params {
+						if q == p {
+							ctors[fn] = i
+						}
+					}
 					continue
 				}
 			}
-			okGuard, okRecord := false, false
-			why := "no lookup keyed by the provider guards the creation"
-			for _, b := range fn.Blocks {
-				for _, in := range b.Instrs {
-					lk, ok := in.(*ssa.Lookup)
-					if !ok || !lk.CommaOk {
-						continue
-					}
-					mt, ok := lk.X.Type().Underlying().(*types.Map)
-					if !ok || !strings.HasSuffix(mt.Key().String(), "internal/kessoku.ProviderSpec") {
-						continue
-					}
-					if !sameValueOrigin(lk.Index, st.Val) {
-						why = "the guarding lookup is keyed by another provider than the one the node is created for"
-						continue
-					}
-					for _, t := range okTestsOf(lk) {
-						if (t.notFound == st.Block() || t.notFound.Dominates(st.Block())) && len(t.notFound.Preds) == 1 {
-							okGuard = true
+			sites = append(sites, site{fn, st, st.Val, al})
+		}
+	}
+	for _, fn := range withClosures(ng) {
+		for _, cs := range callsIn(fn) {
+			if cal := cs.common.StaticCallee(); cal != nil && cs.value() != nil {
+				if idx, ok := ctors[cal]; ok && idx < len(cs.common.Args) {
+					sites = append(sites, site{fn, cs.instr, cs.common.Args[idx], cs.value()})
+				}
+			}
+		}
+	}
+	n := 0
+	for _, sx := range sites {
+		fn := sx.fn
+		n++
+		// the root node: created once, outside every loop, and handed to graph.returnValue
+		if fn == ng && outermostLoopHeader(sx.at.Block()) == nil {
+			isRoot := false
+			if refs := sx.node.Referrers(); refs != nil {
+				for _, r := range *refs {
+					if s2, ok := r.(*ssa.Store); ok && s2.Val == sx.node {
+						if fa2, ok := s2.Addr.(*ssa.FieldAddr); ok && fieldKey(fa2) == "internal/kessoku.returnVal.node" {
+							isRoot = true
 						}
-					}
-					// recorded under the same key in the same map
-					for _, b2 := range fn.Blocks {
-						for _, in2 := range b2.Instrs {
-							if mu, ok := in2.(*ssa.MapUpdate); ok && sameCell(mu.Map, lk.X) && sameValueOrigin(mu.Key, st.Val) && resolve(mu.Value) == ssa.Value(al) && st.Block().Dominates(b2) {
-								okRecord = true
+						// spilled into a local first
+						if al2, ok := s2.Addr.(*ssa.Alloc); ok {
+							for _, r2 := range *al2.Referrers() {
+								if ld, ok := r2.(*ssa.UnOp); ok && ld.Referrers() != nil {
+									for _, r3 := range *ld.Referrers() {
+										if s3, ok := r3.(*ssa.Store); ok {
+											if fa3, ok := s3.Addr.(*ssa.FieldAddr); ok && fieldKey(fa3) == "internal/kessoku.returnVal.node" {
+												isRoot = true
+											}
+										}
+									}
+								}
 							}
 						}
 					}
 				}
 			}
-			c.check(okGuard && okRecord, rule, fnName(fn)+":one-node-per-provider", L.pos(st.Pos()),
-				"a provider node is created only when the provider itself (not one of its result types) has no node yet, and is recorded under the provider", fmt.Sprintf("guarded=%v recorded=%v; %s", okGuard, okRecord, why))
+			if isRoot {
+				c.ok(rule, "the root node is created once, outside the walk", L.pos(sx.at.Pos()))
+				continue
+			}
 		}
+		okGuard, okRecord := false, false
+		why := "no lookup keyed by the provider guards the creation"
+		for _, b := range fn.Blocks {
+			for _, in := range b.Instrs {
+				lk, ok := in.(*ssa.Lookup)
+				if !ok || !lk.CommaOk {
+					continue
+				}
+				mt, ok := lk.X.Type().Underlying().(*types.Map)
+				if !ok || !strings.HasSuffix(mt.Key().String(), "internal/kessoku.ProviderSpec") {
+					continue
+				}
+				if !sameValueOrigin(lk.Index, sx.prov) {
+					why = "the guarding lookup is keyed by another provider than the one the node is created for"
+					continue
+				}
+				for _, t := range okTestsOf(lk) {
+					if (t.notFound == sx.at.Block() || t.notFound.Dominates(sx.at.Block())) && len(t.notFound.Preds) == 1 {
+						okGuard = true
+					}
+				}
+				for _, b2 := range fn.Blocks {
+					for _, in2 := range b2.Instrs {
+						if mu, ok := in2.(*ssa.MapUpdate); ok && sameCell(mu.Map, lk.X) && sameValueOrigin(mu.Key, sx.prov) && resolve(mu.Value) == resolve(sx.node) && sx.at.Block().Dominates(b2) {
+							okRecord = true
+						}
+					}
+				}
+			}
+		}
+		c.check(okGuard && okRecord, rule, fnName(fn)+":one-node-per-provider", L.pos(sx.at.Pos()),
+			"a provider node is created only when the provider itself (not one of its result types) has no node yet, and is recorded under the provider", fmt.Sprintf("guarded=%v recorded=%v; %s", okGuard, okRecord, why))
 	}
 	c.floor(rule, "provider node creations in NewGraph", n, 2)
 }
@@ -1984,6 +2048,18 @@ func ruleFieldsMergedPerStruct(c *Ctx, rule string) {
 		if !ok {
 			continue
 		}
+		// the merge may live in a private helper: entry.Fields = h(entry.Fields, more) where h appends to its first
+		// parameter exactly the elements of the second that the growing list does not contain yet
+		if h := call.Common().StaticCallee(); h != nil && len(call.Common().Args) == 2 && len(h.Blocks) > 0 && h.Pkg == fn.Pkg {
+			if ld, isL := call.Common().Args[0].(*ssa.UnOp); isL {
+				if fa0, isF := ld.X.(*ssa.FieldAddr); isF && fieldKey(fa0) == "internal/migrate.WireFieldsOf.Fields" && resolve(fa0.X) == resolve(st.Addr.(*ssa.FieldAddr).X) {
+					n++
+					okH, whyH := dedupAppendHelper(h)
+					c.check(okH, rule, "mergeFieldsOf:duplicate-test-per-struct", L.pos(st.Pos()), "a merged field is dropped only when the same struct's entry already lists it", "through helper "+h.Name()+": "+whyH)
+					continue
+				}
+			}
+		}
 		bi, ok := call.Common().Value.(*ssa.Builtin)
 		if !ok || bi.Name() != "append" {
 			continue
@@ -2059,7 +2135,7 @@ func rulePackageMismatchRefused(c *Ctx, rule string) {
 		return
 	}
 	n := 0
-	for _, st := range storesToField([]*ssa.Function{mr}, "internal/migrate.MergeError.Kind") {
+	for _, st := range storesToField(family(L, mr), "internal/migrate.MergeError.Kind") {
 		s := newSym(L, map[string]bool{})
 		s.maxD = 0
 		k := strings.Join(s.eval(st.Val), "|")
@@ -2161,6 +2237,45 @@ func ruleInstallWalksBeforeSuccess(c *Ctx, rule string, install *ssa.Function) {
 		return
 	}
 	walks := findCalls(install, "io/fs.WalkDir")
+	// a helper of Install that walks: every success of the helper is the walk's success (checked before, or returned directly)
+	for _, cs := range callsIn(install) {
+		h := cs.common.StaticCallee()
+		if h == nil || len(h.Blocks) == 0 || h.Pkg != install.Pkg || errorResultIndex(h) < 0 {
+			continue
+		}
+		hw := findCalls(h, "io/fs.WalkDir")
+		if len(hw) == 0 {
+			continue
+		}
+		okH := true
+		for _, r := range returnsOf(h) {
+			okR := false
+			for _, w := range hw {
+				if w.value() == nil {
+					continue
+				}
+				if returnsNilError(r) {
+					if o, _ := checkedBefore(w.value(), r); o {
+						okR = true
+					}
+				} else if rr := resolve(r.Results[len(r.Results)-1]); rr == ssa.Value(w.value()) {
+					okR = true // return fs.WalkDir(...)
+				}
+			}
+			if !returnsNilError(r) && !okR {
+				// a failing return before the walk is fine
+				if ok2, _ := allPathsReturnNonNil(r.Block(), map[*ssa.BasicBlock]bool{}); ok2 {
+					okR = true
+				}
+			}
+			if !okR {
+				okH = false
+			}
+		}
+		if okH {
+			walks = append(walks, cs)
+		}
+	}
 	n := 0
 	for _, r := range returnsOf(install) {
 		if !returnsNilError(r) {
@@ -2222,10 +2337,44 @@ func ruleCallerLaneChoice(c *Ctx, rule string) {
 			}
 		case *ssa.Phi:
 			kinds := map[string]bool{}
-			for _, e := range x.Edges {
-				kinds[classify(e, seen)] = true
+			for i, e := range x.Edges {
+				k := classify(e, seen)
+				// "the first ready pool, unless a ready pool with a synchronous head is found": the scanned element may
+				// replace the default only under the IsAsync test of that pool's head
+				if k == "elem" && i < len(x.Block().Preds) {
+					underAsyncTest := false
+					pred := x.Block().Preds[i]
+					for d := pred; d != nil; d = d.Idom() {
+						if len(d.Instrs) == 0 {
+							continue
+						}
+						if iff, ok := d.Instrs[len(d.Instrs)-1].(*ssa.If); ok {
+							s := newSym(L, map[string]bool{})
+							s.maxD = 0
+							t := strings.Join(s.eval(iff.Cond), "|")
+							if strings.Contains(t, "field:internal/kessoku.ProviderSpec.IsAsync(field:internal/kessoku.node.providerSpec(index(") && !strings.Contains(t, genPkg+".") {
+								underAsyncTest = true
+							}
+							if strings.Contains(t, genPkg+".") || strings.Contains(t, "slices.") {
+								underAsyncTest = false
+								break
+							}
+						}
+					}
+					if underAsyncTest {
+						k = "sync-elem"
+					}
+				}
+				kinds[k] = true
 			}
 			delete(kinds, "ok")
+			if kinds["first"] && kinds["sync-elem"] && len(kinds) == 2 {
+				return "first" // default first ready pool, overridden by the first ready pool with a synchronous head
+			}
+			if kinds["sync-elem"] {
+				delete(kinds, "sync-elem")
+				kinds["elem"] = true
+			}
 			if len(kinds) == 1 {
 				for k := range kinds {
 					return k
@@ -2254,5 +2403,123 @@ func ruleCallerLaneChoice(c *Ctx, rule string) {
 		c.check(ok, rule, fnName(bs)+":which-pool-is-built-where", L.pos(cs.instr.Pos()),
 			"the pool handed to buildPoolStmtsSimple is the first ready pool with a synchronous head, the first ready pool, or the pool the walk is at (no other preference, e.g. for the pool of the result)", "pool index is: "+kind)
 	}
-	c.floor(rule, "buildPoolStmtsSimple call sites in buildStmts", n, 3)
+	c.floor(rule, "buildPoolStmtsSimple call sites in buildStmts", n, 2)
+}
+
+// dedupAppendHelper: h(dst, src) returns dst extended, element by element, by those elements that a membership test in the
+// growing dst (rooted at parameter 0) does not find.
+func dedupAppendHelper(h *ssa.Function) (bool, string) {
+	if len(h.Params) != 2 {
+		return false, "not a two-parameter helper"
+	}
+	var rooted func(v ssa.Value, seen map[ssa.Value]bool) bool
+	rooted = func(v ssa.Value, seen map[ssa.Value]bool) bool {
+		if seen[v] {
+			return true
+		}
+		seen[v] = true
+		switch x := v.(type) {
+		case *ssa.Parameter:
+			return x == h.Params[0]
+		case *ssa.Phi:
+			for _, e := range x.Edges {
+				if !rooted(e, seen) {
+					return false
+				}
+			}
+			return true
+		case *ssa.Call:
+			if bi, ok := x.Common().Value.(*ssa.Builtin); ok && bi.Name() == "append" {
+				return rooted(x.Common().Args[0], seen)
+			}
+		}
+		return false
+	}
+	n := 0
+	for _, cs := range callsIn(h) {
+		bi, ok := cs.common.Value.(*ssa.Builtin)
+		if !ok || bi.Name() != "append" {
+			continue
+		}
+		elems, isLit := variadicElems(cs.common.Args[1])
+		if !isLit || len(elems) != 1 || !rooted(cs.common.Args[0], map[ssa.Value]bool{}) {
+			return false, "append of " + describe(cs.common.Args[1])
+		}
+		n++
+		guarded := false
+		for _, iff := range controllingIfs(cs.instr) {
+			var test *ssa.Call
+			switch x := iff.Cond.(type) {
+			case *ssa.Call:
+				test = x
+			case *ssa.UnOp:
+				if x.Op == token.NOT {
+					test, _ = x.X.(*ssa.Call)
+				}
+			}
+			if test != nil && len(test.Common().Args) == 2 && rooted(test.Common().Args[0], map[ssa.Value]bool{}) && sameValueOrigin(test.Common().Args[1], elems[0]) {
+				guarded = true
+			}
+		}
+		if !guarded {
+			return false, "an element is appended without a membership test in the growing list"
+		}
+	}
+	for _, r := range returnsOf(h) {
+		if len(r.Results) != 1 || !rooted(r.Results[0], map[ssa.Value]bool{}) {
+			return false, "returns something else than the extended first parameter"
+		}
+	}
+	return n > 0, fmt.Sprintf("%d guarded append(s)", n)
+}
+
+// ruleProviderTypeResultsFresh (C10.7): parseProviderType's wrapper cases (Async, Bind) set flags on the result of the
+// recursive call IN PLACE. That is only sound while every result is a fresh value nobody else holds: a result kept in a
+// table or a field (a cache) would be modified for all its other users (a plain provider would inherit Async or a bound type).
+func ruleProviderTypeResultsFresh(c *Ctx, rule string) {
+	L := c.L
+	isRes := func(t types.Type) bool {
+		return strings.HasSuffix(t.String(), "*"+genPkg+".parseProviderTypeResult")
+	}
+	inPlace := 0
+	for _, st := range storesToField(pkgFuncs(L, genPkg), "internal/kessoku.parseProviderTypeResult.IsAsync") {
+		if fa, ok := st.Addr.(*ssa.FieldAddr); ok {
+			if _, fresh := fa.X.(*ssa.Alloc); !fresh {
+				inPlace++
+			}
+		}
+	}
+	if inPlace == 0 {
+		c.ok(rule, "wrapper cases do not modify a received result in place; retention of results is harmless", "no store into a non-fresh parseProviderTypeResult")
+		return
+	}
+	bad := 0
+	for _, fn := range pkgFuncs(L, genPkg) {
+		for _, b := range fn.Blocks {
+			for _, in := range b.Instrs {
+				switch x := in.(type) {
+				case *ssa.MapUpdate:
+					if isRes(x.Value.Type()) {
+						bad++
+						c.fail(rule, fnName(fn)+":result-retained-in-table", L.pos(x.Pos()), "a parseProviderType result is kept in a table although the Async/Bind cases modify results in place: the cached value changes under its other users")
+					}
+				case *ssa.Store:
+					if !isRes(x.Val.Type()) {
+						continue
+					}
+					switch a := x.Addr.(type) {
+					case *ssa.FieldAddr:
+						bad++
+						c.fail(rule, fnName(fn)+":result-retained-in-field", L.pos(x.Pos()), "a parseProviderType result is kept in "+fieldKey(a)+" although the Async/Bind cases modify results in place")
+					case *ssa.Global:
+						bad++
+						c.fail(rule, fnName(fn)+":result-retained-in-global", L.pos(x.Pos()), "a parseProviderType result is kept in a package variable although the Async/Bind cases modify results in place")
+					}
+				}
+			}
+		}
+	}
+	if bad == 0 {
+		c.ok(rule, fmt.Sprintf("parseProviderType results are never retained (%d in-place modification(s) of received results are therefore private)", inPlace), "scan of map updates and stores of *parseProviderTypeResult")
+	}
 }
